@@ -174,8 +174,9 @@ func (f *freshnessCalculator) CalculateFreshness(
 	}
 
 	isStale := currentAge.Value >= usefulLife
-	// If max-stale present, allow extra staleness
-	if isStale && maxStale > 0 && currentAge.Value < max(usefulLife+maxStale, maxStale) {
+	// If max-stale present, allow extra staleness; must-revalidate forbids it (RFC 9111 §5.2.2.2)
+	if isStale && maxStale > 0 && !resCC.MustRevalidate() &&
+		currentAge.Value < max(usefulLife+maxStale, maxStale) {
 		isStale = false
 	}
 
